@@ -547,7 +547,10 @@ def structural_class(world, r, check):
         if "change_signature.py" not in base:
             shape = ",".join(t for t in shape.split(",") if t not in CHANGER_NAMES)
         r.crash_shape = (base, shape)
-        if allowed is not None and not shape_allowed(allowed, shape) and not LEARNING:
+        # inside a session the program text is the product of earlier refactorings: crashes there are attributed by
+        # class + frame only (the request-shape narrowing is a property of the one-shot stream on generated worlds)
+        if allowed is not None and not shape_allowed(allowed, shape) and not LEARNING \
+                and not getattr(r, "in_session", False):
             return base + " [on a request shape it is not known for: %s]" % shape
         return base
     return structural_class_rest(world, r, check)
@@ -909,6 +912,7 @@ class LiveSession:
     def _serve(self, req):
         r = L.serve(self.base, self.world, self.project, req)
         r.base = self.base
+        r.in_session = True
         return r
 
 
@@ -922,6 +926,22 @@ def global_rename_request(rng, cur, turn=0):
         return None
     spots.sort()
     return {"kind": "rename", "resource": "a.py", "offset": spots[turn % len(spots)], "new_name": "zz%d" % rng.randrange(100)}
+
+
+def wellformed_request(cur, q):
+    """sessions exist to catch STATE-dependent defects (caches, ignored / foreign resources, interruption): their
+    random requests are restricted to well-formed ones (identifier offsets, valid names, regions that are exactly
+    a statement or an expression, well-formed patterns); malformed requests belong to the one-shot stream"""
+    if "new_name" in q and q["new_name"] is not None and name_shape(q["new_name"]) != "valid-name":
+        return False
+    d = shape_dims(request_shape(cur, q))
+    if d["module"] != "-" or d["offset"] not in ("-", "identifier", "identifier-end", "no-offset"):
+        return False
+    if d["region"] not in ("-", "stmt-region", "expr-region") or d["pattern"] not in ("-", "wellformed-pattern"):
+        return False
+    if q["kind"] == "change_signature" and q.get("changer") in ("remove0", "reorder"):
+        return False        # would strip / displace `self`: the following steps would work on an ill-formed program
+    return "stop" not in q
 
 
 def gen_session(rng, world, n_steps):
@@ -954,10 +974,17 @@ def gen_session(rng, world, n_steps):
             if step is None:
                 cands = [q for q in gen_requests(rng, cur, 0.3) if q["kind"] != "multi"
                          and not (q["kind"] == "synthetic" and q.get("no_undo"))]
-                if not cands:
+                pick = None
+                for _try in range(60):                       # rejection sampling: the first well-formed candidate
+                    if not cands:
+                        break
+                    q = rng.choice(cands)
+                    if wellformed_request(cur, q):
+                        pick = q
+                        break
+                if pick is None:
                     break
-                step = {"op": "request", "req": rng.choice(cands), "undo": rng.random() < 0.3,
-                        "stops": rng.random() < 0.6}
+                step = {"op": "request", "req": pick, "undo": rng.random() < 0.3, "stops": rng.random() < 0.6}
             records = live.step(step)
             steps.append(step)
             yield list(steps), cur, records
@@ -1136,8 +1163,8 @@ def run(ctx):
         if ctx.too_many(12):
             break
     # ---- multi-step sessions on one live project
-    n_sessions = ctx.scale(12, 40)
-    n_steps = ctx.scale(40, 60)
+    n_sessions = ctx.scale(24, 90)          # short sessions: the text stays close to a generated world
+    n_steps = ctx.scale(18, 24)
     n_session_steps = 0
     for si in range(n_sessions):
         if ctx.too_many(12):
